@@ -299,6 +299,17 @@ def readRecordConsole (mode : Mode) (con : Console) : Option Record × Console :
   | (some r, con') => (some r, { con' with nr := con'.nr + 1, fnr := con'.fnr + 1 })
   | (none, con') => (none, con')
 
+/-- the `nextfile` statement: `run_nextinfile` → `hawk_rtx_nextio_read` → handler NEXT → `open_rio_console`.
+`none`: there is no further stream (`in.eos := 1`, `exit_level = EXIT_GLOBAL`: the main loop ends, END runs).
+Otherwise the stream is abandoned where it is: `eof = 0`, `pos = len = 0` — whatever the read buffer and the handler
+still held of the old file is dropped —, FILENAME := the name, `update_fnr(0, nr)`. -/
+def nextFile (con : Console) : Option Console :=
+  if con.eos then none
+  else match con.files with
+    | [] => none
+    | (name, cs) :: fs =>
+      some { con with st := { buf := [], pos := 0, eof := false }, cur := cs, files := fs, fnr := 0, filename := name }
+
 /-- characters the console has not consumed yet -/
 def Console.pendingLen (con : Console) : Nat :=
   (pending con.st con.cur).length + (con.files.map fun f => (delivered f.2).length).sum
@@ -320,6 +331,25 @@ def runConsole (mode : Mode) (con : Console) : List Seen :=
     let s : Seen := ⟨o.2.nr, o.2.fnr, o.2.filename, r⟩
     if _hlt : o.2.pendingLen < con.pendingLen then s :: runConsole mode o.2 else [s]
 termination_by con.pendingLen
+
+/-- a program whose action after each record may be the `nextfile` statement (`nf` decides, seeing NR, FNR, FILENAME and
+the record): the main loop of `run_pblocks` with `run_nextinfile`.  When `nextfile` finds no further stream the loop ends.
+The guards are as in `runConsole` (the second one is always true: abandoning a stream never adds pending characters). -/
+def runScript (mode : Mode) (nf : Seen → Bool) (con : Console) : List Seen :=
+  let o := readRecordConsole mode con
+  match o.1 with
+  | none => []
+  | some r =>
+    let s : Seen := ⟨o.2.nr, o.2.fnr, o.2.filename, r⟩
+    if _hlt : o.2.pendingLen < con.pendingLen then
+      if nf s then
+        match nextFile o.2 with
+        | none => [s]
+        | some c2 => if _h2 : c2.pendingLen ≤ o.2.pendingLen then s :: runScript mode nf c2 else [s]
+      else s :: runScript mode nf o.2
+    else [s]
+termination_by con.pendingLen
+decreasing_by all_goals omega
 
 /-! ## the unrepaired std.c handler, for the record
 
